@@ -2715,3 +2715,44 @@ func ruleR72(c *Ctx) {
 		})
 	}
 }
+
+// ---- R73: one data scope per instance ----
+
+func init() {
+	register(&Rule{ID: "R73", Title: "one data scope per instance: a fresh data locator is created only for a new instance's options; nodes and embedded sub-processes use the locator of the scope they run in", Min: 2, Run: ruleR73})
+}
+
+func ruleR73(c *Ctx) {
+	p := c.P
+	what := "variables written on one side of a sub-process boundary are read by conditions on the other side; that only works when the sub-process uses the enclosing instance's locator itself — a fresh locator (even one seeded by a copy) is a stale snapshot"
+	for _, f := range p.Funcs {
+		if f.Pkg.PkgPath != pathBpmn || f.Body == nil {
+			continue
+		}
+		in := info(f)
+		inspectNoLit(f.Body, func(n ast.Node) bool {
+			call, ok := n.(*ast.CallExpr)
+			if !ok {
+				return true
+			}
+			fn := callee(in, call)
+			if fn == nil || fn.Name() != "NewFlowDataLocator" {
+				return true
+			}
+			okSite := false
+			if as, ok := p.Parent(call).(*ast.AssignStmt); ok {
+				for _, l := range as.Lhs {
+					if fv := fieldOf(in, l); fv != nil {
+						if s, ok := unparen(l).(*ast.SelectorExpr); ok {
+							if nt := namedOf(in.TypeOf(s.X)); nt != nil && nt.Obj().Name() == "Options" {
+								okSite = true
+							}
+						}
+					}
+				}
+			}
+			c.Check(okSite, f, call, "creation of a data locator", what, ifElse(okSite, "stored into the options of a new instance", "a locator is created outside the construction of an instance's options"))
+			return true
+		})
+	}
+}
